@@ -10,6 +10,7 @@ import (
 	"strings"
 	"sync"
 	"sync/atomic"
+	"syscall"
 	"testing"
 	"time"
 
@@ -414,6 +415,18 @@ func c08Check(env *h.Env, c *c08Case) error {
 func TestC08(t *testing.T) {
 	r := h.NewRunner("C08")
 	defer r.Finish(t)
+	// A common descriptor limit (many systems default to 1024; 256 here, as the cases
+	// have hundreds of files rather than thousands): how many files are in flight
+	// depends on the schedule, so a transfer that holds one descriptor per file in
+	// flight succeeds under one schedule and fails under another.
+	var lim syscall.Rlimit
+	if syscall.Getrlimit(syscall.RLIMIT_NOFILE, &lim) == nil && lim.Cur > 256 {
+		low := lim
+		low.Cur = 256
+		if syscall.Setrlimit(syscall.RLIMIT_NOFILE, &low) == nil {
+			defer syscall.Setrlimit(syscall.RLIMIT_NOFILE, &lim)
+		}
+	}
 	h.RunWith(t, r, "", genC08, c08Check)
 	if t.Failed() {
 		return
